@@ -2,7 +2,7 @@ CONSTANTS
 Caps = {1, 2}
 MaxEvents = 5
 MaxReq = 3
-MaxFaults = 3
+MaxFaults = 2
 Mutant = 0
 INIT Init
 NEXT Next
